@@ -4,6 +4,7 @@ package main
 
 import (
 	"fmt"
+	"go/constant"
 	"go/token"
 	"go/types"
 	"sort"
@@ -182,6 +183,7 @@ func (fe *FuncEnc) execFrame(f *Frame, st0 *State, path0 Term) {
 		var reach Term
 		var st *State
 		li := ci.loops[b]
+		f.curBlock = b
 		if b.Index == 0 {
 			reach, st = path0, st0.clone()
 			if li != nil {
@@ -416,6 +418,7 @@ func b2pos(b *ssa.BasicBlock, p token.Pos) token.Pos { return p }
 
 func (fe *FuncEnc) backEdge(f *Frame, li *loopInfo, from *ssa.BasicBlock, cond Term, st *State) {
 	h := li.header
+	f.curBlock = from
 	lc := fe.loopContract(f, li)
 	pos := loopPos(li)
 	phiVal := func(p *ssa.Phi) Term { return fe.phiOperand(p, h, from) }
@@ -508,7 +511,7 @@ func (fe *FuncEnc) step(f *Frame, in ssa.Instruction, st *State, path Term) {
 			arr := t.Elem().Underlying().(*types.Array)
 			ref := fe.val(x.X)
 			fe.emit("safety.index", fe.srcLabel(x.Pos(), "index"), path, tAnd(tLe(tInt(0), idx), tLt(idx, tInt(arr.Len()))), "index in range", x.Pos())
-			f.addrs[x] = &Addr{Comp: "E_" + sortKey(so.sortOf(arr.Elem())), Kind: aElem, Ref: ref, Idx: idx, Typ: arr.Elem()}
+			f.addrs[x] = &Addr{Comp: fe.eng.arrayComp(x.X, so.sortOf(arr.Elem())), Kind: aElem, Ref: ref, Idx: idx, Typ: arr.Elem()}
 		default:
 			engErr("IndexAddr on %s", x.X.Type())
 		}
@@ -631,6 +634,13 @@ func (fe *FuncEnc) intIndex(i Term, path Term) Term {
 func (fe *FuncEnc) s2i(b Term) Term {
 	t := Term{"(s2i " + b.S + ")", SInt}
 	fe.assume(tBool(true), Term{fmt.Sprintf("(and (<= (- 9223372036854775808) %s) (< %s 9223372036854775808) (= (bvslt %s #x0000000000000000) (< %s 0)) (= (= %s #x0000000000000000) (= %s 0)))", t.S, t.S, b.S, t.S, b.S, t.S), SBool})
+	if o, ok := fe.bvOffsets[b.S]; ok {
+		// no overflow => exact
+		bs := Term{"(s2i " + o.base.S + ")", SInt}
+		sum := tAdd(bs, tInt(o.delta))
+		fe.assume(tBool(true), Term{fmt.Sprintf("(=> (and (<= (- 9223372036854775808) %s) (< %s 9223372036854775808)) (= %s %s))", sum.S, sum.S, t.S, sum.S), SBool})
+		fe.assume(tBool(true), Term{fmt.Sprintf("(and (<= (- 9223372036854775808) %s) (< %s 9223372036854775808) (= (bvslt %s #x0000000000000000) (< %s 0)))", bs.S, bs.S, o.base.S, bs.S), SBool})
+	}
 	fe.assumes["int64<->int conversions use an uninterpreted s2i with ground two's-complement facts (range, sign, zero, successor)"] = true
 	return fe.define("s2i", t)
 }
@@ -650,7 +660,7 @@ func (fe *FuncEnc) doAlloc(f *Frame, x *ssa.Alloc, st *State, path Term) {
 	case *types.Array:
 		es := so.sortOf(u.Elem())
 		ref := fe.allocRef(st, "A_E_"+sortKey(es), path)
-		comp := "E_" + sortKey(es)
+		comp := fe.eng.arrayComp(x, es)
 		e := fe.comp(st, comp, arrSort(SInt, arrSort(SInt, es)))
 		fe.setComp(st, comp, tStore(e, ref, so.zeroOfSort(arrSort(SInt, es))))
 		f.vals[x] = ref
@@ -822,8 +832,18 @@ func (fe *FuncEnc) doBinOp(f *Frame, x *ssa.BinOp, st *State, path Term) {
 		switch x.Op {
 		case token.ADD:
 			r("bvadd", SBV64)
+			if c, ok := x.Y.(*ssa.Const); ok && c.Value != nil {
+				if d, ok := constant.Int64Val(constant.ToInt(c.Value)); ok {
+					fe.bvOffsets[f.vals[x].S] = bvOffset{a, d}
+				}
+			}
 		case token.SUB:
 			r("bvsub", SBV64)
+			if c, ok := x.Y.(*ssa.Const); ok && c.Value != nil {
+				if d, ok := constant.Int64Val(constant.ToInt(c.Value)); ok {
+					fe.bvOffsets[f.vals[x].S] = bvOffset{a, -d}
+				}
+			}
 		case token.MUL:
 			r("bvmul", SBV64)
 		case token.AND:
